@@ -405,7 +405,8 @@ def variant_exec(name):
         scratch = "/tmp/memchr-verif-%s-%d" % (name, os.getpid())
         try:
             if name in ("neon", "simd128", "other"):
-                rc, out = sh([sys.executable, os.path.join(ROOT, "tools/emulate/mkemu.py"), name, scratch])
+                rc, out = sh([sys.executable, os.path.join(ROOT, "tools/emulate/mkemu.py"), name, scratch],
+                             env=dict(ENV, MEMCHR_VERIF_REPO=REPO))
                 if rc != 0:
                     return None, out[-3000:]
                 hdir = os.path.join(scratch, "harness")
@@ -420,10 +421,10 @@ def variant_exec(name):
                 cfgp = os.path.join(hdir, ".cargo/config.toml")
                 c = open(cfgp).read()
                 if name == "alloconly":
-                    t = t.replace('memchr = { path = "/repo" }', 'memchr = { path = "/repo", default-features = false, features = ["alloc"] }')
+                    t = t.replace('memchr = { path = "%s" }' % REPO, 'memchr = { path = "%s", default-features = false, features = ["alloc"] }' % REPO)
                 elif name == "noalloc":
                     # neither `std` nor `alloc`: CowBytes is a plain borrow, no Shift-Or, no into_owned
-                    t = t.replace('memchr = { path = "/repo" }', 'memchr = { path = "/repo", default-features = false }')
+                    t = t.replace('memchr = { path = "%s" }' % REPO, 'memchr = { path = "%s", default-features = false }' % REPO)
                     c = c.replace('rustflags = ["--cfg", "memchr_verif"]', 'rustflags = ["--cfg", "memchr_verif", "--cfg", "memchr_verif_noalloc"]')
                 elif name == "nodebug":
                     # what a release build does: no debug assertions, no overflow checks (a broken
